@@ -64,6 +64,7 @@ from zonedb.pygenerator import PythonGenerator
 from zonedb.ingenerator import InlineGenerator
 from zonedb.zonelistgenerator import ZoneListGenerator
 from zonedb.bufestimator import BufSizeEstimator
+from zonedb.zone_specifier import ZoneSpecifier, YearMonthTuple
 
 
 class Generator(Protocol):
@@ -146,6 +147,26 @@ def generate_zonedb(
                 f"({EXTENDED_MAX_TRANSITIONS}) for zone(s): {too_big}"
             )
 
+        # Likewise ExtendedZoneProcessor holds at most kMaxMatches ZoneEras
+        # for the 14-month window of one year, and ignores the rest.
+        if tzdb['scope'] == 'extended':
+            too_many = []
+            for name, zone_info in zone_infos.items():
+                zone_specifier = ZoneSpecifier(zone_info)
+                for year in range(tzdb['start_year'], tzdb['until_year']):
+                    matches = zone_specifier._find_matches(
+                        YearMonthTuple(year - 1, 12),
+                        YearMonthTuple(year + 1, 2))
+                    if len(matches) > EXTENDED_MAX_MATCHES:
+                        too_many.append(name)
+                        break
+            if too_many:
+                raise Exception(
+                    f"More than ExtendedZoneProcessor::kMaxMatches "
+                    f"({EXTENDED_MAX_MATCHES}) ZoneEras in the window of one "
+                    f"year for zone(s): {sorted(too_many)}"
+                )
+
         generator = ArduinoGenerator(
             invocation=invocation,
             db_namespace=db_namespace,
@@ -158,8 +179,9 @@ def generate_zonedb(
         raise Exception("Unrecognized language '%s'" % language)
 
 
-# Must be the same as ExtendedZoneProcessor::kMaxTransitions.
+# Must be the same as ExtendedZoneProcessor::kMaxTransitions and kMaxMatches.
 EXTENDED_MAX_TRANSITIONS = 8
+EXTENDED_MAX_MATCHES = 4
 
 
 def main() -> None:
